@@ -42,15 +42,15 @@ def run(ctx):
         fam.replay("c18mut", b3, MUT2, dotu=True)
         fam.random(cases=8, steps=120)
     else:
-        b1 = fam.tour("c18walk1", WALK1, sample_edges=30000)
+        b1 = fam.tour("c18walk1", WALK1, sample_edges=20000)
         fam.replay("c18walk1", b1, WALK1, dotu=True)
         fam.replay("c18walk1", b1, WALK1, dotu=False, max_cases=500)
-        b2 = fam.tour("c18walk2", WALK2, sample_edges=20000)
+        b2 = fam.tour("c18walk2", WALK2, sample_edges=12000)
         fam.replay("c18walk2", b2, WALK2, dotu=True)
-        b3 = fam.tour("c18mut", MUT, sample_edges=30000)
+        b3 = fam.tour("c18mut", MUT, sample_edges=14000)
         fam.replay("c18mut", b3, MUT, dotu=True)
-        b4 = fam.simulate("c18mut2-sim", MUT2, num=2000, depth=20)
+        b4 = fam.simulate("c18mut2-sim", MUT2, num=1200, depth=20)
         fam.replay("c18mut2", b4, MUT2, dotu=True)
-        fam.random(cases=120, steps=250)
+        fam.random(cases=100, steps=250)
         fam.defect_model("c18-asis-confine", MUT, "FixConfine", ["ConfinedState", "Confined", "DotDotAtRoot"])
     return fam.finish(RULE)
